@@ -900,6 +900,10 @@ def _run(ctx, fl, sc, lanes):
     if errs:
         raise errs[0]
 
+    if ctx.violations and (build.tree_hash() != build.current_hash() or not all(os.path.exists(b) for b in (fl.nano_vmd, fl.nano_vm, fl.nano_cop))):
+        # what was observed cannot be attributed to one definite tree / build: not a verdict
+        raise core.Inconclusive("/repo (or the cached build in %s) changed while the check was running; unattributable observations: %s"
+                                % (fl.root, [v[0] for v in ctx.violations][:6]))
     if ctx.violations:
         stats["symbols"].update({a: stats["symbols"].get(a, 0) for a in alphabet})      # a cut-short run still reports its violations
     ctx.require(ctx.violations or stats["sequences"] >= len(alphabet) + 20, "too few sequences executed (%d)" % stats["sequences"])
